@@ -62,9 +62,14 @@ def check_word(seq, case):
     absent = [a for a in T.AA if a not in seq]
     shared = [SP(seq), SP(seq)]      # two live objects on which ALL calls are repeated (forward / reverse order)
     shared_calls = []
-    for assign in itertools.product((1, 2, 0), repeat=4):
-        g1 = [l for l, a in zip(LETTERS, assign) if a == 1]
-        g2 = [l for l, a in zip(LETTERS, assign) if a == 2]
+    letters = case.get("letters", LETTERS)
+    allassign = list(itertools.product((1, 2, 0), repeat=len(letters)))
+    if case.get("slice"):
+        i_, n_ = case["slice"]
+        allassign = allassign[i_::n_]
+    for assign in allassign:
+        g1 = [l for l, a in zip(letters, assign) if a == 1]
+        g2 = [l for l, a in zip(letters, assign) if a == 2]
         if not g2:
             # empty second group: the statement does not say whether this is a one- or two-group call
             if g1:
@@ -339,6 +344,15 @@ def run(tier, seed, t0):
     for w in ["KEPGKE", "KKEEPPGG", "PGPGKEKE", "KEKEKGPGPG", "GGGKKKEEEPPP", "GGGGGGGPGGGGGGGGKE", "KKKKKKKKKKKKKKEKKKKKKKPG",
               "GGGGGGGGGGGGGGGGGGGGGGGGGGGKEP", "EEEEEEEEEEEEEEKEEEEEEEEEEEEEEEPG"]:
         cases.append({"kind": "word", "seq": w, "assignments": True})
+    # words over all six residues that carry a charge or are special-cased (D,E,K,R + G,P): window-complete (de Bruijn, every
+    # ordered pair of the six letters adjacent somewhere) chunks x ALL 3^6 = 729 assignments of the six letters to the groups,
+    # in 9 slices; thorough: also every 5-letter word over {D,E,K,R} x 81 assignments
+    for w in spaces.window_complete_chunks("DEKRGP", 2, (13,) if tier == "quick" else (9, 13, 19)):
+        for i in range(9):
+            cases.append({"kind": "word", "seq": w, "assignments": True, "letters": "DEKRGP", "slice": [i, 9]})
+    if tier == "thorough":
+        for w in spaces.shard_words("DEKR", 5, ""):
+            cases.append({"kind": "word", "seq": w, "assignments": True, "letters": "DEKR"})
     for w in spaces.shard_words(T.AA, 2, ""):
         cases.append({"kind": "word", "seq": w, "assignments": False})
     LXO = 10 if tier == "quick" else 13
@@ -355,14 +369,14 @@ def run(tier, seed, t0):
     for w in ["KEPGDRSTYAGS", "DKDKPEPRSTAG", "EEKKPPGGDDRRAASSTT", "KPEGSDRATKEPG"]:
         cases.append({"kind": "collisions", "seq": w})
         cases.append({"kind": "containers", "seq": w})
-    cases.sort(key=lambda c: -len(c["seq"]) * (81 if c.get("assignments") else 1))
+    cases.sort(key=lambda c: -len(c["seq"]) ** 2 * (81 if c.get("assignments") else 1))
     nsh = 16 * 8
     acc = core.pmap(shard, [cases[i::nsh] for i in range(nsh)])
     return core.finish(
         PROP, tier, seed, acc, t0,
         rule="every word over {K,E,P,G} of length 1..3 and 5..%d (thorough: 1..%d; +5 longer ones) x ALL 81 assignments of those four letters to "
              "(group 1 / group 2 / neither), each with swapped groups and three paddings by absent residues with permuted member "
-             "order and mixed case; one-group calls vs the complementary two-group call; all those calls repeated in forward and reverse order on one reused object each (must equal the fresh-object results); every 2-residue word over the 20 amino "
+             "order and mixed case; window-complete (de Bruijn order 2) words over {D,E,K,R,G,P} x ALL 729 assignments of those six letters (strict sub-groups of the charge classes included; thorough: + every 5-letter word over {D,E,K,R} x 81); one-group calls vs the complementary two-group call; all those calls repeated in forward and reverse order on one reused object each (must equal the fresh-object results); every 2-residue word over the 20 amino "
              "acids, every word over {PEDKR-class, other-class} of length 5..10 (thorough 13) and three 10-20-mers for Omega == kappa(recoded) == kappa_X(PEDKR), kappa == kappa_X(ED,KR) and the Omega "
              "string; 8 invalid members at every position of either group must be rejected (also in groups none of whose valid members occurs in "
              "the sequence, and alone in their group). Collision histories on one reused object: every prefix split of the sorted letter "
